@@ -8,6 +8,12 @@ from ..summaries import is_digit
 def digit(name): return CharLeaf(name, lambda v: z3.And(v >= 48, v <= 57), 'digit')
 
 
+def number_literal_obligations(prop, oc=True, lens=(1, 16, 17, 18, 19)):
+    """eval_number reads a digit-only literal that fits i64 as exactly that Integer (the text -> Number conversion that C09 / C18 build on)"""
+    tag = 'dbg' if oc else 'rel'
+    return [TokOb(prop, 'number', [digit('d%d' % i) for i in range(n)] + [CharLeaf('t')], 'number/lit/D%d+any/%s' % (n, tag), oc=oc) for n in lens]
+
+
 def obligations(ctx):
     obs = []
     lens = [1, 2, 3, 5, 8, 17, 18, 19, 20, 25, 40] if ctx.tier == 'quick' else list(range(1, 41)) + [60, 100]
